@@ -950,23 +950,26 @@ func (pc *PeerConnection) CreateAnswer(options *AnswerOptions) (SessionDescripti
 		return SessionDescription{}, &rtcerr.InvalidStateError{Err: ErrIncorrectSignalingState}
 	}
 
-	connectionRole := connectionRoleFromDtlsRole(pc.api.settingEngine.answeringDTLSRole)
-	if connectionRole == sdp.ConnectionRole(0) {
-		dtlsRole := dtlsRoleFromSDP(remoteDesc.parsed)
-		switch dtlsRole {
-		case DTLSRoleClient:
-			connectionRole = connectionRoleFromDtlsRole(DTLSRoleServer)
-		case DTLSRoleServer:
-			connectionRole = connectionRoleFromDtlsRole(DTLSRoleClient)
-		default:
+	// The answer has to complement a role the offer chose explicitly (a=setup:active/passive), the same
+	// way DTLSTransport.role() decides which role is actually used. Only an actpass (or absent) offer
+	// leaves the choice to the configured answering role and the defaults.
+	var connectionRole sdp.ConnectionRole
+	switch dtlsRoleFromSDP(remoteDesc.parsed) {
+	case DTLSRoleClient:
+		connectionRole = connectionRoleFromDtlsRole(DTLSRoleServer)
+	case DTLSRoleServer:
+		connectionRole = connectionRoleFromDtlsRole(DTLSRoleClient)
+	default:
+		connectionRole = connectionRoleFromDtlsRole(pc.api.settingEngine.answeringDTLSRole)
+		if connectionRole == sdp.ConnectionRole(0) {
 			connectionRole = connectionRoleFromDtlsRole(defaultDtlsRoleAnswer)
-		}
 
-		// If one of the agents is lite and the other one is not, the lite agent must be the controlled agent.
-		// If both or neither agents are lite the offering agent is controlling.
-		// RFC 8445 S6.1.1
-		if isIceLiteSet(remoteDesc.parsed) && !pc.api.settingEngine.candidates.ICELite {
-			connectionRole = connectionRoleFromDtlsRole(DTLSRoleServer)
+			// If one of the agents is lite and the other one is not, the lite agent must be the controlled agent.
+			// If both or neither agents are lite the offering agent is controlling.
+			// RFC 8445 S6.1.1
+			if isIceLiteSet(remoteDesc.parsed) && !pc.api.settingEngine.candidates.ICELite {
+				connectionRole = connectionRoleFromDtlsRole(DTLSRoleServer)
+			}
 		}
 	}
 	pc.mu.Lock()
